@@ -66,7 +66,7 @@ claimed = {
    note=TB+"openpgp.CheckDetachedSignature, io.MultiReader/NewSectionReader over ghost content assumed.",
    technique=DED+" with trusted contracts on the OpenPGP library", design="3 (C16), 6"),
  "C17": dict(
-   text="Deductive proof, for arbitrary input: ParseOne returns io.EOF only at a clean end (input exhausted and everything consumed since the previous entry blank), so input ending inside an entry yields another error; a value xor an error; progress and termination of ParseOne and Parse; partition splits at the FIRST delimiter and keeps the rest verbatim; the change text of an entry is one contiguous piece of the input, byte for byte; source name and distribution list are the named pieces of the first non-blank line, the version is what the (re-verified) version parser makes of that line's bracketed text, the maintainer the piece of the ' -- ' trailer line between '--' and the first double blank. Options, timestamp and the order of entries in Parse (model conformance) are checked by the bounded stand-in (2.8 M renderings and truncations), labelled bounded.",
+   text="Deductive proof, for arbitrary input: ParseOne returns io.EOF only at a clean end (input exhausted and everything consumed since the previous entry blank), so input ending inside an entry yields another error; a value xor an error; progress and termination of ParseOne and Parse; partition splits at the FIRST delimiter and keeps the rest verbatim; the change text of an entry is one contiguous piece of the input, byte for byte; source name and distribution list are the named pieces of the first non-blank line, the version is what the (re-verified) version parser makes of that line's bracketed text, the maintainer the piece of the ' -- ' trailer line between '--' and the first double blank, the timestamp what time.Parse (trusted) makes of the text after that double blank under the changelog layout. Options and the order of entries in Parse (model conformance) are checked by the bounded stand-in (2.8 M renderings and truncations), labelled bounded.",
    note=TB+"bufio ReadString over ghost input, time.Parse, strings.SplitN assumed. Model conformance: bounded only.",
    technique=DED+"; bounded exhaustive stand-in for model conformance", design="3 (C17), 6"),
  "C20": dict(
